@@ -1020,12 +1020,19 @@ def compare(psrc, qsrc, opts, ptree=None, qtree=None):
         if sc.kind != 'class':
             continue
         for o in sc.occs:
-            if o.role == 'load' and o.name in sc.bound and o.scope is sc:
+            if (o.role == 'load' or (o.role == 'store' and o.aug)) and o.name in sc.bound and o.scope is sc:
                 n = o.name
                 p_has = n in pm_.module.bound
+                # the recorded finding: an enclosing *function* also binds the name, and the renamer links the class-body read to that local
+                enclosing_function_binds = False
+                up = sc.parent
+                while up is not None:
+                    if up.kind in ('function', 'lambda') and n in up.bound:
+                        enclosing_function_binds = True
+                    up = up.parent
                 if p_has:
                     if fwd.get((0, n), (0, n))[1] != n:
-                        res.problems.append({'kind': 'class-body-global-fallback-renamed', 'detail': 'class %s reads %s which may fall back to the module global; that global was renamed to %s' % (sc.name, n, fwd[(0, n)][1])})
+                        res.problems.append({'kind': 'class-body-global-fallback-renamed', 'enclosing_function_binds': enclosing_function_binds, 'detail': 'class %s reads %s which may fall back to the module global; that global was renamed to %s' % (sc.name, n, fwd[(0, n)][1])})
                 else:
                     if n in qm_.module.bound:
                         res.problems.append({'kind': 'class-body-global-fallback-captured', 'detail': 'class %s reads %s (builtin / outside); the output binds %s at module level' % (sc.name, n, n)})
